@@ -386,6 +386,33 @@ theorem writeData_loaded (e : Endian) (cw : Nat) (shape : List Nat) (A : List Na
     writeData e cw shape (loadedAt shape ((enumF shape).map A)) = writeData e cw shape A :=
   writeData_congr e cw shape _ _ (fun i hi => loadedAt_map shape A i (mem_enumF_inBounds shape i hi))
 
+/-! ### shape fields -/
+
+theorem storeDims_ok (dimMax : Nat) (dims : List Int) (g : Nat) (f : ShapeFields)
+    (h : storeDims dimMax dims g = .ok f) : f = ⟨dims, g⟩ := by
+  unfold storeDims at h
+  split at h
+  · cases h; rfl
+  · cases h
+
+theorem natsToInts_take (l : List Nat) (n : Nat) : (natsToInts l).take n = natsToInts (l.take n) := by
+  simp [natsToInts, List.map_take]
+
+theorem natsToInts_drop (l : List Nat) (n : Nat) : (natsToInts l).drop n = natsToInts (l.drop n) := by
+  simp [natsToInts, List.map_drop]
+
+theorem natsToInts_inj (a b : List Nat) (h : natsToInts a = natsToInts b) : a = b := by
+  unfold natsToInts at h
+  induction a generalizing b with
+  | nil => cases b with
+    | nil => rfl
+    | cons y ys => simp at h
+  | cons x xs ih => cases b with
+    | nil => simp at h
+    | cons y ys =>
+      simp only [List.map_cons, List.cons.injEq] at h
+      rw [Int.ofNat_inj.mp h.1, ih ys h.2]
+
 /-! ### file names -/
 
 theorem rfind_lt (c : Char) : ∀ (s : List Char) (i : Nat), rfind c s = some i → i < s.length
